@@ -8,9 +8,15 @@ import traceback
 
 HERE = os.path.dirname(os.path.abspath(__file__))
 sys.path.insert(0, HERE)
-os.environ.setdefault("PYTHONHASHSEED", "0")
-if os.environ.get("PYTHONHASHSEED") != "0":
-    os.environ["PYTHONHASHSEED"] = "0"
+# string / bytes hashing (hence set and dict iteration order inside the library under test) is fixed PER SEED: seed 1 runs with
+# PYTHONHASHSEED=0, seed k with k-1 -- every run is reproducible from its seed, and different seeds also explore different
+# iteration orders (defect D20 depended on one)
+try:
+    _want_hs = str(max(0, int(os.environ.get("VERIF_SEED", "1") or "1") - 1) % 4294967295)
+except ValueError:
+    _want_hs = "0"
+if os.environ.get("PYTHONHASHSEED") != _want_hs:
+    os.environ["PYTHONHASHSEED"] = _want_hs
     os.execv(sys.executable, [sys.executable] + sys.argv)
 os.environ["GTIRB_VERIF"] = "1"
 sys.dont_write_bytecode = True
